@@ -347,6 +347,7 @@ int process_start(pid_t *process,
                                                                  : environ;
   env = strv_concat(parent, options.env.extra);
   if (env == NULL) {
+    r = -errno;
     goto finish;
   }
 
